@@ -53,6 +53,8 @@ func alphabet() []piece {
 		{Name: "f()", Prog: []*N{Expr(call("f"))}},
 		{Group: "const", Name: "const c", Prog: []*N{Const("c", Int(3))}},
 		{Group: "const", Name: "c=4", Prog: []*N{Set1("c", Int(4))}},
+		{Group: "const", Name: "c++", Prog: []*N{Inc("c", "++")}},
+		{Group: "const", Name: "x,c=[5,6]", Prog: []*N{MultiSet([]string{"x", "c"}, List(Int(5), Int(6)))}},
 		{Name: "undefined", Prog: []*N{Expr(Id("undefined_name"))}},
 		{Group: "output", Name: "print;undefined", Prog: []*N{pr("p"), Expr(Id("undefined_name"))}},
 		{Name: "syntax", Raw: ")(", Syntax: true},
